@@ -52,10 +52,10 @@ class ReverseLogScaling(Scaling):
         assert (
             0 <= value < 1
         ), "Value must be between 0 (inclusive) and 1 (exclusive) to be reverse-log-scaled."
-        return -np.log(1.0 - value)
+        return -np.log1p(-value)
 
     def from_internal(self, value: float) -> float:
-        return 1.0 - np.exp(-value)
+        return -np.expm1(-value)
 
 
 def get_scaling(hp_range: Domain) -> Scaling:
